@@ -108,6 +108,23 @@ pub fn check_roundtrip(raw: &RawRecipe, st: &mut Stats) -> Verdict {
     let Some(out) = res.output() else {
         vbail!("c01.no-output", "{cfg} parser returned no output for source {src:?}");
     };
+    // a paragraph written with single blanks between its words has single blanks (the image below
+    // collapses runs of blanks, because other spellings of a paragraph keep theirs)
+    // (steps read in text mode become paragraphs too and keep their own spacing: such recipes are left out)
+    if feats.loose_text_lines == 0 && !m.blocks.iter().any(|b| matches!(b, BlockM::Mode(ModeM::Text))) {
+        for s in &out.sections {
+            for c in &s.content {
+                if let cooklang::Content::Text(t) = c {
+                    st.class("paragraph written with single blanks: compared exactly");
+                    vensure!(
+                        !t.trim().contains("  ") && !t.contains('\t'),
+                        "c01.mismatch.paragraph-spacing",
+                        "a text paragraph written with single blanks between its words reads {t:?}; {cfg} parser; source {src:?}"
+                    );
+                }
+            }
+        }
+    }
     let actual = match actual_image(out) {
         Ok(a) => a,
         Err(e) => vbail!("c01.image", "{e}; source {src:?}"),
